@@ -206,8 +206,17 @@ def unhex(s):
 
 def run_lines(binary, lines, env=None, timeout=1800, args=()):
     data = ("\n".join(lines) + "\n").encode()
-    p = subprocess.run([binary] + list(args), input=data, stdout=subprocess.PIPE, stderr=subprocess.PIPE,
-                       env=env or BASE_ENV, timeout=timeout)
+    p = None
+    for attempt in range(40):
+        # another check may be re-linking the binary at this very moment (builds are serialised, runs are not)
+        try:
+            p = subprocess.run([binary] + list(args), input=data, stdout=subprocess.PIPE, stderr=subprocess.PIPE,
+                               env=env or BASE_ENV, timeout=timeout)
+            break
+        except (FileNotFoundError, PermissionError, OSError) as ex:
+            if attempt == 39:
+                raise
+            time.sleep(0.5)
     out = p.stdout.decode("utf-8", "replace").splitlines()
     if p.returncode != 0 or len(out) != len(lines):
         raise RuntimeError(f"{os.path.basename(binary)} rc={p.returncode} lines {len(out)}/{len(lines)}: "
